@@ -141,6 +141,10 @@ struct Vi {
     complete: bool,
 }
 
+/// more items than any iteration of a generated case can legitimately yield (walks are bounded by
+/// `Limits::none_cap` ≤ 4000 items, the verbose iterator yields at most three times as many)
+const RUNAWAY: usize = 40_000;
+
 struct Obs {
     post: Vec<It>,
     rtl: Vec<It>,
@@ -164,14 +168,15 @@ where
         ncy: d.n_children_yielded,
         complete: d.is_complete,
     };
+    // `take`: an iteration that runs away (possible only in a broken tree) is cut and reported
     Obs {
-        post: h.post_order_iter::<S>().map(it).collect(),
-        rtl: h.rtl_post_order_iter::<S>().map(it).collect(),
-        pre: h.pre_order_iter::<S>().map(|d| d.0).collect(),
-        vpre: h.verbose_pre_order_iter::<S>(None).map(vi).collect(),
-        vcut: h.verbose_pre_order_iter::<S>(Some(md)).map(vi).collect(),
+        post: h.post_order_iter::<S>().take(RUNAWAY).map(it).collect(),
+        rtl: h.rtl_post_order_iter::<S>().take(RUNAWAY).map(it).collect(),
+        pre: h.pre_order_iter::<S>().take(RUNAWAY).map(|d| d.0).collect(),
+        vpre: h.verbose_pre_order_iter::<S>(None).take(RUNAWAY).map(vi).collect(),
+        vcut: h.verbose_pre_order_iter::<S>(Some(md)).take(RUNAWAY).map(vi).collect(),
         shared: h.is_shared_as::<S>(),
-        post_ptr: h.post_order_iter::<InternalSharing>().map(|d| d.node.0).collect(),
+        post_ptr: h.post_order_iter::<InternalSharing>().take(RUNAWAY).map(|d| d.node.0).collect(),
     }
 }
 
@@ -620,6 +625,14 @@ fn oracle(c: &Case, pol: Pol, md: usize, cls: &[Option<usize>], fl: &Flags, unf:
     let n = c.ch.len();
     let root = n - 1;
     let mut fails: Vec<(String, String)> = vec![];
+    for (name, len) in [("post", o.post.len()), ("rtl", o.rtl.len()), ("pre", o.pre.len()), ("vpre", o.vpre.len()), ("vcut", o.vcut.len())] {
+        if len >= RUNAWAY {
+            fails.push(("runaway-iteration".into(), format!("{name}: more than {RUNAWAY} items from a DAG of {n} nodes whose walk has at most {cap} items")));
+        }
+    }
+    if !fails.is_empty() {
+        return (fails, [0; 8]);
+    }
     // ---- post-order and its right-to-left variant
     check_items("post", &o.post, c, cls, fl, &mut fails);
     check_items("rtl", &o.rtl, c, cls, fl, &mut fails);
@@ -1225,6 +1238,14 @@ pub fn run(ctx: &mut Ctx) {
         let c1 = Case { ch: s.clone(), tags: random_tags(&mut r, n, 2, true), keys: random_keys(&mut r, s, km) };
         one(ctx, &c1, Pol::Hash, md, "exhaustive", &lim);
         one(ctx, &c1, Pol::Key, md, "exhaustive", &lim);
+    }
+
+    // the single-node DAG under every policy, a few taggings
+    for v in 0..6u32 {
+        let c = Case { ch: vec![Ch::Nul], tags: vec![if v == 5 { None } else { Some(v) }], keys: vec![if v % 2 == 0 { None } else { Some(v) }] };
+        for pol in [Pol::None, Pol::Ptr, Pol::Hash, Pol::Key] {
+            one(ctx, &c, pol, (v % 2) as usize, "single-node", &lim);
+        }
     }
 
     // 2. random DAGs
